@@ -1,7 +1,69 @@
 import GoawkModel.Basic
-/-! Line-protocol handler for property C14: one request line (already split into words, without the leading `c14`) → one answer line. -/
-namespace GoawkModel.Drv.C14
+import GoawkModel.C14
+/-!
+Line-protocol handler for property C14.
 
-def handle (_args : List String) : String := "unimplemented"
+`hist <call>*` where a call is `RV` (ResetVars), `RR` (ResetRand) or
+`X <flags> <varG|-> <input> <b> <m> <e>`: flags = five 0/1 digits (csv, header, Vars FS=",", bad Vars entry, ExecuteContext);
+input = records joined by `/` with `_` for a space (`-` = empty); b/m/e = scripts, operations joined by `;` (`-` = empty).
+Answer: `ok` followed by one word `<status>:<error kind>:<hex of the output>` per X call.
+-/
+namespace GoawkModel.Drv.C14
+open GoawkModel GoawkModel.C14
+
+def parseOp (w : String) : Option Op :=
+  match w.splitOn ":" with
+  | ["g", i, v] => i.toNat?.map (fun i => Op.setG i v)
+  | ["a", k, v] => some (.setA k v)
+  | ["d", k] => some (.delA k)
+  | ["ofs", v] => some (.setOfs v)
+  | ["cf", v] => some (.setCf v)
+  | ["fs", "c"] => some (.setFs true)
+  | ["fs", "s"] => some (.setFs false)
+  | ["nr", n] => n.toNat?.map Op.setNR
+  | ["rec", v] => some (.setRec v)
+  | ["gl"] => some .getline
+  | ["m", n] => n.toNat?.map Op.matchOp
+  | ["rx", k] => some (.rx k)
+  | ["sr", n] => n.toNat?.map Op.srand
+  | ["rn"] => some .rand
+  | ["nm", k] => some (.name k)
+  | ["x", n] => n.toNat?.map Op.exit
+  | ["err"] => some .err
+  | ["cn"] => some .cancel
+  | ["p"] => some .probe
+  | _ => none
+
+def parseScript (w : String) : Option (List Op) :=
+  if w == "-" then some [] else (w.splitOn ";").mapM parseOp
+
+def parseInput (w : String) : List String :=
+  if w == "-" then [] else (w.splitOn "/").map (fun l => l.replace "_" " ")
+
+def parseCalls : List String → Option (List Call)
+  | [] => some []
+  | "RV" :: rest => (parseCalls rest).map (Call.resetVars :: ·)
+  | "RR" :: rest => (parseCalls rest).map (Call.resetRand :: ·)
+  | "X" :: flags :: varG :: input :: b :: m :: e :: rest =>
+    match flags.toList, parseScript b, parseScript m, parseScript e, parseCalls rest with
+    | [f1, f2, f3, f4, f5], some b, some m, some e, some rest =>
+      some (Call.exec ⟨f1 == '1', f2 == '1', parseInput input, f3 == '1', if varG == "-" then none else some varG,
+        f4 == '1', f5 == '1', b, m, e⟩ :: rest)
+    | _, _, _, _, _ => none
+  | _ => none
+
+def errName : ErrKind → String
+  | .none => "none" | .divzero => "divzero" | .nonames => "nonames" | .cancelled => "cancelled" | .config => "config"
+
+def renderResult (r : Result) : String :=
+  toString r.status ++ ":" ++ errName r.err ++ ":" ++ toHex (ofString (String.intercalate "\n" r.out))
+
+def handle (args : List String) : String :=
+  match args with
+  | "hist" :: calls =>
+    match parseCalls calls with
+    | some cs => String.intercalate " " ("ok" :: (historyResults cs fresh).map renderResult)
+    | none => "bad-request"
+  | _ => "bad-request"
 
 end GoawkModel.Drv.C14
